@@ -97,10 +97,10 @@ struct Case {
     raw: Value,
 }
 
-fn long_seg() -> String { "x".repeat(200) }
+fn long_seg(n: usize) -> String { "x".repeat(n) }
 
-/// The model writes the 200 character segment as "x200".
-fn expand(s: &str) -> String { s.replace("x200", &long_seg()) }
+/// The model writes the 200 and 300 character segments as "x200" and "x300".
+fn expand(s: &str) -> String { s.replace("x200", &long_seg(200)).replace("x300", &long_seg(300)) }
 
 /// "#(text)" -> SHA-256 of text in hex (the model's uninterpreted hash).
 fn subst_hash(s: &str) -> String {
@@ -140,7 +140,7 @@ fn parse_case(b: &Value) -> Case {
 
 fn brief(c: &Case) -> Value { json!({"kind": c.kind, "u1": short(&c.u[0]), "u2": short(&c.u[1])}) }
 
-fn short(s: &str) -> String { s.replace(&long_seg(), "x200") }
+fn short(s: &str) -> String { s.replace(&long_seg(300), "x300").replace(&long_seg(200), "x200") }
 
 fn real_accepts(kind: &str, u: &str) -> bool {
     if kind == "tah" || kind == "notify" { uri::Https::from_str(u).is_ok() } else { uri::Rsync::from_str(u).is_ok() }
@@ -511,7 +511,8 @@ fn one(rep: &mut Report, w: &mut Worker, c: &Case) {
             diverge(rep, w.said, &format!("panic/{}", c.kind), format!("{} {}: panic ({} / {})", c.kind, short(&c.u[i]), o.run, o.dump));
         }
         if o.run != "ok" {
-            let class = if c.u[i].ends_with('/') { "directory-uri" } else { "other" };
+            let class = if c.u[i].ends_with('/') { "directory-uri" }
+                        else if c.u[i].contains(&long_seg(300)) { "segment-over-name-max" } else { "other" };
             diverge(rep, w.said, &format!("single-uri-run-{}/{}/{}", o.run.split(':').next().unwrap(), c.kind, class),
                 format!("{} {}: the run with this URI alone ends {}", c.kind, short(&c.u[i]), o.run));
         }
